@@ -698,16 +698,16 @@ func (e *env) checkDrained(m map[string]int64) (stop bool) {
 			// continue with further addresses; (leak) a flush failed while the
 			// cache held a batch of small objects followed by a big one.
 			// Confirm: a NEW cache instance (empty in-flight set) drains the rest.
-			fp, why := fpWin, "a scheduler round needed a second hand-over: the batch window restarts at the address already sent, the next address is marked in-flight but never sent"
+			fp, why := fpWin, "precondition of this class held: some scheduler round needed a second hand-over (batch window restart)"
 			if !multiBatch {
-				fp, why = fpLeak, "a flush error arrived while a small batch was followed by a big object: the error path forgets to unmark the current address"
+				fp, why = fpLeak, "precondition of this class held: a flush error arrived while a small batch was followed by a big object (error path of the scheduler)"
 			}
 			e.label("stuck-hit:" + fp)
 			e.reopen()
 			if m2 := e.drain(); len(m2) > 0 {
 				e.fatalf("%s; and a fresh cache instance does not flush them either: [%s]", msg, listing(m2))
 			}
-			e.fatalf("[%s] %s; a fresh cache instance over the same directory flushes them, so the address was left in the scheduler's in-flight set (flushObjs): %s", fp, msg, why)
+			e.fatalf("[%s] %s; a fresh cache instance over the same directory flushes them, so the address was stuck in the in-flight set (flushObjs) of the old instance; %s", fp, msg, why)
 		}
 		e.fatalf("%s", msg)
 	}
@@ -726,10 +726,22 @@ func (e *env) checkDrained(m map[string]int64) (stop bool) {
 func TestC17(t *testing.T) {
 	rec := ev.New("C17", "writecache")
 	defer rec.Flush()
-	bubble.Check(t, func(t *rapid.T) {
+	// All draws happen OUTSIDE the synctest bubble (plain rapid.Check), only the
+	// execution runs inside bubble.Run: rapid's internal "invalid data" panics of
+	// shrink candidates then keep their own tracebacks and can never be taken
+	// for the (re-raised) failure of the case.
+	tt := t
+	rapid.Check(t, func(t *rapid.T) {
 		faulty := rapid.IntRange(0, 2).Draw(t, "faulty") > 0
 		c := genCfg(t)
 		steps := genSteps(t, faulty)
+		zsize := reach(minObjSize + rapid.IntRange(0, 300-minObjSize).Draw(t, "zsize"))
+		bubble.Run(tt, func() { runCase(t, rec, c, steps, zsize) })
+	})
+}
+
+func runCase(t *rapid.T, rec *ev.Recorder, c cfg, steps []step, zsize int) {
+	{
 
 		dir, err := os.MkdirTemp("", "c17")
 		if err != nil {
@@ -816,7 +828,7 @@ func TestC17(t *testing.T) {
 		// Oracle B after a restart with content: one fresh object stays in the
 		// cache (no tick between put and close), the new instance recounts.
 		{
-			z, _, zb := objOfSize(0, 99, reach(minObjSize+rapid.IntRange(0, 300-minObjSize).Draw(t, "zsize")))
+			z, _, zb := objOfSize(0, 99, zsize)
 			if len(zb) <= e.c.M {
 				adm, stop := e.seqPut("put-before-restart", obj{z, zb})
 				if stop {
@@ -842,5 +854,5 @@ func TestC17(t *testing.T) {
 			e.fatalf("final Close: %v", err)
 		}
 		closed = true
-	})
+	}
 }
